@@ -58,18 +58,32 @@ def dd_outs(g, e):
     return list(e.get('dd_outs', [])) if e.get('dd') else []
 
 
+def _spell(path, style):
+    """a non-canonical spelling of the same file (same table as graphs.spell)"""
+    if style == 1:
+        return "./" + path
+    if style == 2:
+        return "inc/../" + path
+    if style == 3:
+        d, _, b = path.rpartition("/")
+        return (d + "//" + b) if d else "./././" + path
+    return path
+
+
 def dyndep_text(g, dd):
     """the (valid) content of dyndep file dd for graph g: one statement per build statement bound to it"""
     L = ["ninja_dyndep_version = 1\n"]
     for e in g['edges']:
         if e.get('dd') != dd:
             continue
-        l = "build %s" % key(e)
+        # paths in a dyndep file are canonicalised like paths in the manifest: the file may spell them ./x, d/../x, d//x
+        sp = lambda n: _spell(n, e.get('dd_spell', 0))
+        l = "build %s" % sp(key(e))
         if e.get('dd_outs'):
-            l += " | " + " ".join(e['dd_outs'])
+            l += " | " + " ".join(sp(o) for o in e['dd_outs'])
         l += ": dyndep"
         if e.get('dd_ins'):
-            l += " | " + " ".join(e['dd_ins'])
+            l += " | " + " ".join(sp(i) for i in e['dd_ins'])
         L.append(l + "\n")
         if e.get('dd_restat'):
             L.append("  restat = 1\n")
